@@ -821,3 +821,48 @@ def on_both_views(ctx, chk, qual, run):
         b.replay(chk)
     else:
         a.replay(chk)
+
+
+MEMO_DECORATORS = ("lru_cache", "cache", "functools.lru_cache", "functools.cache", "cached_property", "functools.cached_property")
+
+
+def rule_no_memoised_io(ctx, chk, rule, funcs, what):
+    """A function of the file pipeline wrapped in a memoising decorator answers a later call from its cache: the caller gets the
+    object of the first call back - whatever was done to it since (run_games writes a key into every game) and whatever the
+    file holds now.  Returns the number of functions examined."""
+    n = 0
+    for f in funcs:
+        n += 1
+        for d in f.node.decorator_list:
+            name = call_name(d) if isinstance(d, ast.Call) else (attr_path(d) if isinstance(d, (ast.Name, ast.Attribute)) else None)
+            if name in MEMO_DECORATORS:
+                chk.violation(rule, f.where(d), "%s is memoised (`@%s`): a second call with the same arguments returns the first call's object - modified by whoever used it "
+                              "since, and blind to what the file holds now - so %s" % (f.short, src(d), what),
+                              expected="the file is read (the value is computed) at every call", found="@" + src(d), construct="%s memoised" % f.short)
+    return n
+
+
+def rule_no_module_level_iterators(ctx, chk, rule, modules):
+    """A module-level name bound to a lazy iterator (`MODES = zip(...)`, `map(...)`, a generator expression) is used up by the
+    first loop that walks it: every later loop over it - the next game of the batch, the next call - gets nothing.
+    Returns the number of module-level bindings examined."""
+    n = 0
+    for mname in modules:
+        m = ctx.prog.mods.get(mname)
+        if m is None:
+            continue
+        for name, val in m.consts.items():
+            n += 1
+            lazy = isinstance(val, ast.GeneratorExp) or (isinstance(val, ast.Call) and call_name(val) in ITER_MAKERS)
+            if not lazy:
+                continue
+            for f in ctx.prog.all_funcs((mname,)):
+                if any(isinstance(x, ast.Name) and x.id == name and isinstance(x.ctx, ast.Store) for x in walk_no_nested_defs(f.node)) or name in f.params:
+                    continue
+                for x in walk_no_nested_defs(f.node):
+                    it = x.iter if isinstance(x, (ast.For, ast.comprehension)) else None
+                    if isinstance(it, ast.Name) and it.id == name:
+                        chk.violation(rule, f.where(x if isinstance(x, ast.For) else f.node), "`%s` iterates the module-level `%s = %s`, a one-shot iterator: the first loop over it uses it up, "
+                                      "every later one (the next game, the next call of %s) runs zero times" % (norm_stmt(x)[:60] if isinstance(x, ast.For) else "a comprehension", name, src(val)[:50], f.short),
+                                      expected="a tuple / list (or the iterator built where it is used)", found="%s = %s" % (name, src(val)[:80]), construct="%s module-level iterator %s" % (mname, name))
+    return n
